@@ -117,6 +117,8 @@ CallStep(m) == /\ e' = MCall(e, m)
 \* a path that has failed is continued by ONE more selection (in a let: the failed prefix is bound first, then selected from):
 \* what cannot be completed stays an error or empty -- it never turns into the receiver or some other element again
 Failed2 == [t |-> "fail", again |-> TRUE]
+IsNilK(x) == (x.t = "dot" /\ x.n = "NilKid") \/ (x.t = "mcall" /\ x.n = "NilChild")
+NilShout == <<"nil.Shout()">>
 Extend ==
   /\ fam = "walk" /\ UNCHANGED fam
   /\ n < MaxSteps + (IF v = Failed THEN 1 ELSE 0) /\ v # Failed2 /\ v.t \in {"rec", "arr", "map", "nil", "pmap", "pslice", "imap", "fail"}
@@ -125,6 +127,8 @@ Extend ==
      \/ v.t = "rec" /\ \E f \in DOMAIN v.f \cup {"Nope", Unexported} : FieldStep(f)
      \/ v.t = "rec" /\ \E m \in DOMAIN v.m \cup {"Nope"} : CallStep(m)
      \/ v.t = "nil" /\ FieldStep("Name")
+     \* a nil *K: a method with a POINTER receiver is callable on it (Go calls it with the nil receiver), one with a value receiver is not
+     \/ v.t = "nil" /\ IsNilK(e) /\ ((e' = MCall(e, "Shout") /\ v' = Leaf("nil.Shout()")) \/ (e' = MCall(e, "Hello") /\ v' = Failed))
      \* the largest int as an index (literal and variable): out of range like any other
      \/ v.t = "arr" /\ (IndexStep(MaxIntLit, 2147483647) \/ IndexStep(Id("imax"), 2147483647))
      \/ v.t = "arr" /\ \/ \E k \in 0..2 : IndexStep(IntL(k), k)
@@ -158,6 +162,9 @@ Res(u) == Run(Prog(u), WithHelpers(Data), EmptyScope, "")
 Expect(u) ==
   LET r == Res(u) IN
   IF v.t \in {"unspecv", "pmap", "pslice"} THEN [k |-> "unspec"]
+  \* (Layer A's nil carries no type: the result of the pointer method on the nil *K is given here directly)
+  \* C11 lets a path through a nil pointer fail (error or empty output); what it may NOT yield is anything but Go's result
+  ELSE IF v.t = "str" /\ v.s = NilShout /\ u # "iter" THEN [k |-> "outorerrorempty", base |-> <<"[", "]">>, pieces |-> <<[k |-> "raw", s |-> <<"[">>], [k |-> "esc", s |-> v.s], [k |-> "raw", s |-> <<"]">>]>>, log |-> <<>>]
   ELSE IF v.t = "fail" \/ v.t = "nil" THEN [k |-> "errorempty", base |-> <<"[", "]">>]
   ELSE IF u = "iter" /\ v.t \notin {"arr", "map", "imap"} THEN [k |-> "errorempty", base |-> <<"[", "]">>]
   ELSE IF u = "iter" /\ (v.t \in {"map", "imap"} \/ \E i \in 1..Len(v.xs) : v.xs[i].t # "str") THEN [k |-> "unspec"]
@@ -170,7 +177,7 @@ RevisitRes == LET nm == CHOOSE x \in DOMAIN RevisitPaths : \E h \in {"loop", "as
                   how == IF \E x \in DOMAIN RevisitPaths : fam = x \o ":loop" THEN "loop" ELSE "assign"
               IN [prog |-> RevisitProg(nm, how), r |-> Run(RevisitProg(nm, how), WithHelpers(Data), EmptyScope, "")]
 RevisitTheorem == fam # "walk" => RevisitRes.r.k = "out"
-NavTheorem == (fam = "walk" /\ v.t = "str") => (Res("emit").k = "out" /\ Res("emit").pieces = <<[k |-> "raw", s |-> <<"[">>], [k |-> "esc", s |-> v.s], [k |-> "raw", s |-> <<"]">>]>>)
+NavTheorem == (fam = "walk" /\ v.t = "str" /\ v.s # NilShout) => (Res("emit").k = "out" /\ Res("emit").pieces = <<[k |-> "raw", s |-> <<"[">>], [k |-> "esc", s |-> v.s], [k |-> "raw", s |-> <<"]">>]>>)
 FailTheorem == (fam = "walk" /\ v.t = "fail") => Res("emit").k \in {"err", "unspec"}
 EmitCase == IF fam # "walk"
             THEN PrintT("CASE " \o ToJson([gen |-> "GenPaths", srcs |-> [revisit |-> Unparse(RevisitRes.prog)],
